@@ -40,6 +40,14 @@ var c18Env = map[string]ref.V{
 	"m":  ref.NewMap("a", ref.Int(1), "b", ref.Int(2)),
 	"mm": ref.NewMap("a", "x", "l", univ.L(ref.Int(1), ref.Int(2)), "n", ref.NewMap("d", ref.Int(7))),
 	"lm": univ.L(ref.NewMap("k", ref.Int(2)), ref.NewMap("k", ref.Int(1))),
+	// a list beyond small-size thresholds (sorting, hashing fast paths): 30 numbers with duplicates
+	"lb": func() ref.List {
+		var l ref.List
+		for i := 0; i < 30; i++ {
+			l = append(l, ref.Int(int64((i*7)%11)))
+		}
+		return l
+	}(),
 }
 
 type c18Tpl struct {
@@ -60,6 +68,7 @@ var c18Templates = []c18Tpl{
 	{src: "{% if n %}T{% endif %}{% unless g %}U{% endunless %}{% if n and f %}V{% endif %}"},
 	{src: "{{ l | sort | join: ',' }}|{{ l2 | sort | join: ',' }}|{{ lf | sort | join: ',' }}|{{ l2 | uniq | join: ',' }}|{{ l | reverse | join: ',' }}"},
 	{src: "{% if l contains f %}A{% else %}B{% endif %}{% if l contains k %}C{% else %}D{% endif %}{% if l contains g %}E{% else %}F{% endif %}{% if lf contains n %}G{% else %}H{% endif %}{% if lf contains 2.5 %}I{% endif %}{% if l contains 2.0 %}J{% endif %}{% if l contains '2' %}K{% else %}L{% endif %}{% if ls contains n %}M{% else %}N{% endif %}"},
+	{src: "{{ lb | sort | join: ',' }}|{{ lb | uniq | join: ',' }}|{{ lb | sort | uniq | size }}|{% if lb contains 10 %}A{% endif %}{% if lb contains 5.0 %}B{% endif %}|{{ lb | reverse | first }}|{{ lb[29] }}|{{ lb | join: '' | size }}"},
 	{src: "{{ ld | uniq | join: ',' }}|{{ ld | uniq | size }}|{{ ld | sort | uniq | join }}|{{ ld | reverse | uniq | join }}|{% if ld contains 'c' %}C{% endif %}"},
 	{src: "{% if l contains 2 %}A{% endif %}{% if l contains n %}B{% endif %}{% if l2 contains 2 %}C{% else %}D{% endif %}{% if l == l %}E{% endif %}{% if l == l2 %}F{% else %}G{% endif %}"},
 	// strings
